@@ -56,7 +56,13 @@ def geo_sig(e, fine=True):
         return "interval~%s" % dep([e["lo"], e["hi"]])
     if k == "point":
         return "point~%s" % dep(e["p"])
-    if k in ("union", "cut", "and", "prod"):
+    if k == "prod":             # which volume / sampling branch of ProductDomain: dependent first factor, parameters in either factor
+        from .astutil import free_vars, space_vars
+        fl, fr = free_vars(e["l"]), free_vars(e["r"])
+        depv = fl & set(space_vars(e["r"]))
+        mark = ("dep" if depv else "ind") + ("+pl" if fl - depv else "") + ("+pr" if fr else "")
+        return "prod[%s](%s,%s)" % (mark, geo_sig(e["l"], fine), geo_sig(e["r"], fine))
+    if k in ("union", "cut", "and"):
         return "%s(%s,%s)%s" % (k, geo_sig(e["l"], fine), geo_sig(e["r"], fine), "!" if e.get("disjoint") or e.get("contained") else "")
     if k == "trans":
         return "trans~%s(%s)" % (dep(e["t"]), geo_sig(e["d"], fine))
@@ -242,6 +248,16 @@ class Ctx:
             r["trace"] = idx.get(r["tid"])
         self.rejections.extend(rej)
         return rej
+
+    def replay_scenarios(self):
+        """--replay <file | directory of replay files>: the recorded scenarios"""
+        files = sorted(os.path.join(self.replay, f) for f in os.listdir(self.replay) if f.endswith(".json")) if os.path.isdir(self.replay) else [self.replay]
+        out = []
+        for f in files:
+            sc = json.load(open(f))["trace"]["scenario"]
+            sc.pop("tid", None)
+            out.append(sc)
+        return out
 
     def stratified(self, items, frac, key=None, min_per=1):
         """Quick-tier subsample: items are grouped by structure (the JSON term with every number replaced by 0, so
